@@ -537,7 +537,9 @@ func launchWorker(bin string, o *options, race bool, offset, stride int, only in
 	if res.fault != "" {
 		return res
 	}
-	if res.exit == 2 {
+	if res.exit == 2 && strings.Contains(res.stderr, "HARNESS-FAULT") {
+		// (a Go runtime fatal error also exits with status 2: that is a crash of the run in
+		// progress, handled below)
 		res.fault = "worker reported a harness fault: " + tail(res.stderr, 5)
 		return res
 	}
@@ -948,7 +950,8 @@ func parentMain(o *options) int {
 			// whether it shows again depends on the detector's randomised shadow-cell eviction
 			note = "DATA RACE reported once by the Go race detector in code of the repository; re-execution did not show it again (the detector's shadow-memory eviction and sync.Pool's behaviour under -race are randomised). Original report attached."
 		} else {
-			return fatal2("worker died in run %d (%s) but neither the run alone nor the worker's share crashes again", cr.idx, tail(cr.stderr, 3))
+			_, sig0, _ := stderrSignature(cr.stderr)
+			return fatal2("worker died in run %d (%s | %s) but neither the run alone nor the worker's share crashes again", cr.idx, strings.Join(sig0, " | "), tail(cr.stderr, 2))
 		}
 		class, sig, funcs := stderrSignature(stderrText)
 		if class == "DATA_RACE" && len(funcs) == 0 {
